@@ -88,6 +88,17 @@ def corruptions(bp):
             w[k] = [x[0], 4, x[2], 2 if x[3] == 1 else x[3]]
             break
     out.append(("one wire recoloured", c))
+    # geometry (C08): an entity moved onto another one; an entity moved far away from what it is wired to
+    c = clone()
+    c["blueprint"]["entities"][1]["position"] = dict(c["blueprint"]["entities"][0]["position"])
+    out.append(("entity moved onto another", c))
+    c = clone()
+    w0 = c["blueprint"]["wires"][0]
+    c["blueprint"]["entities"][w0[0] - 1]["position"] = {"x": 200.5, "y": 300.0}
+    out.append(("wired entity moved 300 tiles away", c))
+    c = clone()
+    c["blueprint"]["wires"].append([1, 1, len(c["blueprint"]["entities"]) + 5, 1])
+    out.append(("wire to a missing entity", c))
     return out
 
 
@@ -103,7 +114,7 @@ def run(wd):
         rid = "corrupt%d" % k
         names[rid] = name
         items.append({"id": rid, "stmts": STMTS, "u": 1, "bps": [prep_bp(cbp)]})
-    br = refine.run_batches(wd + "/binding", "Refine", refine.CFG_REFINE, items, {"Strict": False, "DomCap": 216, "Seed": 0, "Clauses": ["C01_value", "C01_type", "C01_settles", "C20_exposed"]}, batch_size=50)
+    br = refine.run_batches(wd + "/binding", "Refine", refine.CFG_REFINE, items, {"Strict": False, "DomCap": 216, "Seed": 0, "Clauses": ["C01_value", "C01_settles", "C20_exposed", "C08_overlap", "C08_wire_ends", "C08_wire_colour", "C08_wire_reach", "C08_proto"]}, batch_size=50)
     if br.errors:
         raise Machinery("binding demonstration: TLC failed: %s" % br.errors[:2])
     failed = {f[0] for f in br.fails}
@@ -115,6 +126,6 @@ def run(wd):
     missed = [names[r] for r in names if r not in failed]
     if missed:
         raise Machinery("binding demonstration: corruptions ACCEPTED by the trace check: %s" % missed)
-    if len(names) < 6:
+    if len(names) < 10:
         raise Machinery("binding demonstration: only %d corruptions could be constructed" % len(names))
     return len(names)
